@@ -211,7 +211,9 @@ Fixpoint eval (fuel:nat) (env:list val) (e:expr) {struct fuel} : M :=
       | Ok (inl vs) => match tbl f with Some d => match eval fuel' vs (f_body d) with Ok (CVal v) | Ok (CRet v) => ret v | other => other end | None => Stuck "nofn" end
       | Ok (inr v) => Ok (CRet v) | Panic => Panic | UB s => UB s | OutOfFuel => OutOfFuel | Stuck s => Stuck s end
   | EIf c t f => bindv (eval fuel' env c) (fun v => match v with VB true => eval fuel' env t | VB false => eval fuel' env f | _ => Stuck "if" end)
-  | EMatchI s arms d => bindv (eval fuel' env s) (fun v => match v with VI _ z => eval fuel' env (find_arm z arms d) | _ => Stuck "matchi" end)
+  | EMatchI s arms d => bindv (eval fuel' env s) (fun v => match v with
+      | VI _ z => (fix go (arms : list (Z * expr)) : M := match arms with [] => eval fuel' env d | (k, e) :: t => if Z.eqb z k then eval fuel' env e else go t end) arms   (* the test stays outside the evaluator: an undetermined scrutinee splits into the arms instead of blocking [eval] on a neutral expression *)
+      | _ => Stuck "matchi" end)
   | EMatchOpt s sm nn => bindv (eval fuel' env s) (fun v => match v with VOpt (Some x) => eval fuel' (env ++ [x]) sm | VOpt None => eval fuel' env nn | _ => Stuck "matchopt" end)
   | EBlock ss tl => match exec fuel' env ss with Ok (SNorm env') => eval fuel' env' tl | Ok (SRet v) => Ok (CRet v) | Panic => Panic | UB s => UB s | OutOfFuel => OutOfFuel | Stuck s => Stuck s end
   | EPanic => Panic
@@ -233,7 +235,9 @@ with exec (fuel:nat) (env:list val) (ss:list stmt) {struct fuel} : res (sres (F3
     | SExpr e => match eval fuel' env e with Ok (CVal _) => exec fuel' env rest | Ok (CRet v) => Ok (SRet v) | Panic => Panic | UB s => UB s | OutOfFuel => OutOfFuel | Stuck s => Stuck s end
     | SAssert c => match eval fuel' env c with Ok (CVal (VB true)) => exec fuel' env rest | Ok (CVal (VB false)) => Panic | Ok (CVal _) => Stuck "assert" | Ok (CRet v) => Stuck "assert-return" | Panic => Panic | UB s => UB s | OutOfFuel => OutOfFuel | Stuck s => Stuck s end
     | SIf c t f => match eval fuel' env c with
-        | Ok (CVal (VB b)) => match exec fuel' env (if b then t else f) with Ok (SNorm env') => exec fuel' (firstn n env') rest | other => other end
+        | Ok (CVal (VB b)) =>      (* the continuation is duplicated into the two branches, so that an undetermined condition splits the whole remaining path *)
+            if b then match exec fuel' env t with Ok (SNorm env') => exec fuel' (firstn n env') rest | other => other end
+            else match exec fuel' env f with Ok (SNorm env') => exec fuel' (firstn n env') rest | other => other end
         | Ok (CVal _) => Stuck "sif" | Ok (CRet v) => Ok (SRet v) | Panic => Panic | UB s => UB s | OutOfFuel => OutOfFuel | Stuck s => Stuck s end
     end
   end end.
